@@ -303,6 +303,8 @@ type runner struct {
 	assertsChecked, trivialAsserts int64
 	branches                      int64
 	perEntry                      []map[string]interface{}
+	nativeViol                    map[string]bool
+	nativeFailed                  bool
 }
 
 func (r *runner) tierNum() int {
@@ -586,6 +588,28 @@ func (r *runner) crossValidate(entries []string) bool {
 			cur = j.Harness
 		}
 		got := ex.RunConcrete(w, j.Vec)
+		if (len(nat[i].Failures) > 0 || nat[i].Status == "panic") && len(nat[i].Known) == 0 && !r.spec.ExpectFail {
+			// the real build itself violates an assertion on this concrete vector: that is a
+			// reproduced violation whatever the VM says (e.g. effects the VM does not model,
+			// such as a string aliasing a mutable buffer)
+			label := "native-run: " + strings.Join(dedup(nat[i].Failures), ",")
+			if nat[i].Status == "panic" {
+				label = "native-run: panic " + nat[i].Detail
+			}
+			if !r.nativeViol[label] {
+				if r.nativeViol == nil {
+					r.nativeViol = map[string]bool{}
+				}
+				r.nativeViol[label] = true
+				os.MkdirAll(filepath.Join(verifDir, "replays", r.id), 0o755)
+				path := filepath.Join(verifDir, "replays", r.id, sanitize(label)+".json")
+				rd, _ := json.MarshalIndent(Replay{Property: r.id, Harness: j.Harness, Tier: r.tier, Label: label, Vec: j.Vec, Detail: "found by the native half of the cross-validation"}, "", " ")
+				os.WriteFile(path, rd, 0o644)
+				fmt.Printf("VIOLATION property=%s replay=%s\n  %s\n  harness: %s (concrete cross-validation vector, native build)\n", r.id, path, label, j.Harness)
+				r.violations++
+				r.nativeFailed = true
+			}
+		}
 		if !sameResult(got, nat[i]) {
 			okAll = false
 			mism++
@@ -637,6 +661,9 @@ func (r *runner) runAll(entries []string) int {
 	exit := 0
 	if !r.crossValidate(entries) {
 		exit = 2
+	}
+	if r.nativeFailed {
+		exit = 1
 	}
 	type pending struct {
 		entry string
